@@ -236,6 +236,28 @@ WITNESSES = {
         _wit('modularity_finetune_dir', [[0, 1, 4], [0, 0, 0], [1, 0, 0]], 0, ci=[1, 1, 3], ci_kind='witness'),
     ],
 }
+
+
+def near_tie(e, order):
+    """two pairs A={a1,a2}, B={b1,b2}: internal weight sums w_AA = e-1, w_BB = e+1, weight e between them (e odd).
+    Level 1 finds A and B; at level 2 merging them has exact gain (e^2 - w_AA*w_BB)/s = 1/s > 1e-10 but raises Q only by
+    2/s^2 < 1e-10, so the level is computed and then discarded: the returned level must be the one BEFORE it."""
+    a1, a2, b1, b2 = order
+    W = [[0] * 4 for _ in range(4)]
+
+    def put(i, j, w):
+        W[i][j] = w
+        W[j][i] = w
+    put(a1, a2, (e - 1) // 2)
+    put(b1, b2, (e + 1) // 2)
+    q = e // 4
+    put(a1, b1, e - 3 * q); put(a1, b2, q); put(a2, b1, q); put(a2, b2, q)
+    return W
+
+
+for _k, (_e, _o) in enumerate([(100001, (0, 1, 2, 3)), (300001, (2, 0, 3, 1)), (1000001, (3, 2, 1, 0)), (200001, (0, 2, 1, 3))]):
+    WITNESSES.setdefault('modularity_louvain_und', []).append(
+        dict(_wit('modularity_louvain_und', near_tie(_e, _o), 11 + _k), family='near-tie-level'))
 _queue = {}
 
 
